@@ -1,3 +1,391 @@
-//! C03 — stub, to be implemented.
-use vcore::Ctx;
-pub fn run(_ctx: &mut Ctx) {}
+//! C03 — connection ids are never reused: across Swarms, across threads, over the process lifetime.
+//!
+//! The statement is about the *whole process*, so the oracle keeps one process-global record of every
+//! id it has ever been handed (a paged bitmap keyed by the id's numeric value, exact for any u64) and a
+//! duplicate is a violation no matter which case, lane, thread or Swarm produced the two occurrences.
+//! Once a duplicate has been seen the process is "tainted": every later case fails with the same
+//! witness, which keeps the verdict stable while proptest shrinks/re-executes (a lost update in a racy
+//! counter cannot be replayed on demand — the schedule belongs to the OS).
+//!
+//! Sub-checks
+//! * `stress`   — T threads (1..16) start on a barrier and allocate ids through every public route:
+//!   `DialOpts` builders (5 spellings), real `Swarm::dial` on a simulated swarm, and inbound connections
+//!   arriving at two simulated swarms per thread. Randomised stress over the OS scheduler.
+//! * `boundary` — deterministic: allocate, jump the counter (hook `ConnectionId::verif_skip`, equivalent
+//!   to n discarded allocations) to just below 2^k, allocate across the boundary. A counter that is
+//!   truncated/wraps at 2^k hands out ids that were already recorded earlier in the process.
+use libp2p_core::Multiaddr;
+use libp2p_swarm::dial_opts::{DialOpts, PeerCondition};
+use libp2p_swarm::ConnectionId;
+use multiaddr::Protocol;
+use proptest::prelude::*;
+use serde::{Deserialize, Serialize};
+use serde_json::json;
+use simswarm::probe::{cid, Probe, ProbeScript};
+use simswarm::world::{release_phantoms, Ev, World};
+use std::collections::HashMap;
+use std::sync::{Arc, Barrier, Mutex, OnceLock};
+use vcore::{gen, Ctx, Outcome};
+
+// ---------------------------------------------------------------------------------------------
+// process-global record of ids
+
+const PAGE_BITS: u64 = 1 << 16;
+
+#[derive(Default)]
+struct Seen {
+    pages: HashMap<u64, Box<[u64]>>,
+    total: u64,
+    /// first duplicate ever observed in this process: (id, where the second occurrence came from)
+    dup: Option<(u64, String)>,
+}
+
+impl Seen {
+    /// true if `id` was already present
+    fn insert(&mut self, id: u64) -> bool {
+        let page = self.pages.entry(id / PAGE_BITS).or_insert_with(|| vec![0u64; (PAGE_BITS / 64) as usize].into_boxed_slice());
+        let bit = id % PAGE_BITS;
+        let w = &mut page[(bit / 64) as usize];
+        let m = 1u64 << (bit % 64);
+        let was = *w & m != 0;
+        *w |= m;
+        if !was {
+            self.total += 1;
+        }
+        was
+    }
+}
+
+fn seen() -> &'static Mutex<Seen> {
+    static S: OnceLock<Mutex<Seen>> = OnceLock::new();
+    S.get_or_init(Default::default)
+}
+
+/// Record a batch; returns the process-wide duplicate witness if there is (or ever was) one.
+fn record(ids: &[u64], origin: &str) -> Option<(u64, String)> {
+    let mut g = seen().lock().unwrap();
+    for &id in ids {
+        if g.insert(id) && g.dup.is_none() {
+            g.dup = Some((id, origin.to_string()));
+        }
+    }
+    g.dup.clone()
+}
+
+// ---------------------------------------------------------------------------------------------
+// allocation routes
+
+#[derive(Clone, Debug, Serialize, Deserialize, PartialEq, Eq)]
+pub enum Seg {
+    /// `n` DialOpts built through builder spelling `route` (0..5); nothing is dialed
+    Opts { route: u8, n: u16 },
+    /// `n` real `Swarm::dial` calls on simulated swarm `node` (id read from the DialOpts)
+    Dial { node: u8, n: u8 },
+    /// `n` inbound connections arriving at simulated swarm `node` (id read from `IncomingConnection`)
+    Inbound { node: u8, n: u8 },
+}
+
+#[derive(Clone, Debug, Serialize, Deserialize, PartialEq, Eq)]
+pub struct Case {
+    /// one plan per thread
+    pub threads: Vec<Vec<Seg>>,
+}
+
+fn addr(k: u64) -> Multiaddr {
+    Multiaddr::empty().with(Protocol::Memory(1 + k))
+}
+
+fn build_opts(route: u8, k: u64) -> DialOpts {
+    let p = gen::peer((k % 8) as usize);
+    match route % 5 {
+        0 => DialOpts::peer_id(p).build(),
+        1 => DialOpts::peer_id(p).condition(PeerCondition::Always).addresses(vec![addr(k)]).build(),
+        2 => DialOpts::unknown_peer_id().address(addr(k)).build(),
+        3 => DialOpts::from(p),
+        _ => DialOpts::from(addr(k)),
+    }
+}
+
+struct ThreadOut {
+    ids: Vec<ConnectionId>,
+    by_opts: usize,
+    by_dial: usize,
+    by_inbound: usize,
+    /// an id seen in an event that the harness cannot attribute (harness self-check)
+    problem: Option<String>,
+}
+
+/// Everything one thread does between the barrier and its end. Swarms are created *before* the
+/// barrier (by the caller) so that the contended window is spent allocating.
+fn run_plan(plan: &[Seg], world: &mut Option<World<Probe>>, t: usize) -> ThreadOut {
+    let mut out = ThreadOut { ids: Vec::new(), by_opts: 0, by_dial: 0, by_inbound: 0, problem: None };
+    let mut k: u64 = (t as u64) << 32;
+    for seg in plan {
+        match seg {
+            Seg::Opts { route, n } => {
+                for _ in 0..*n {
+                    k += 1;
+                    let o = build_opts(*route, k);
+                    out.ids.push(o.connection_id());
+                    out.by_opts += 1;
+                }
+            }
+            Seg::Dial { node, n } => {
+                let Some(w) = world.as_mut() else { continue };
+                let i = *node as usize % w.nodes.len();
+                for _ in 0..*n {
+                    k += 1;
+                    // unknown peer + explicit address: always reaches the transport, a pending connection is created
+                    let o = build_opts(if k % 2 == 0 { 2 } else { 1 }, k);
+                    let id = o.connection_id();
+                    let _ = w.nodes[i].swarm.dial(o);
+                    out.ids.push(id);
+                    out.by_dial += 1;
+                }
+                // fail the transport dials and drain, so nothing accumulates
+                w.settle(50, &mut |_, _, _| {});
+                for d in w.open_dials(i) {
+                    w.resolve_err(i, d);
+                }
+                w.settle(50, &mut |_, _, _| {});
+            }
+            Seg::Inbound { node, n } => {
+                let Some(w) = world.as_mut() else { continue };
+                let i = *node as usize % w.nodes.len();
+                let before = w.nodes[i].events.len();
+                let mut injected = 0;
+                for _ in 0..*n {
+                    k += 1;
+                    if w.incoming_phantom(i, 0, addr(k)).is_some() {
+                        injected += 1;
+                    }
+                }
+                w.settle(50, &mut |_, _, _| {});
+                let got: Vec<u64> = w.nodes[i].events[before..].iter().filter_map(|e| if let Ev::Incoming { conn, .. } = e { Some(*conn) } else { None }).collect();
+                if got.len() != injected {
+                    out.problem = Some(format!("injected {injected} inbound connections, saw {} IncomingConnection events", got.len()));
+                }
+                for c in got {
+                    out.ids.push(ConnectionId::new_unchecked(c as usize));
+                    out.by_inbound += 1;
+                }
+                for q in w.open_incoming() {
+                    w.resolve_incoming(q, None);
+                }
+                w.settle(50, &mut |_, _, _| {});
+                w.incoming.clear();
+            }
+        }
+    }
+    out
+}
+
+fn new_world() -> World<Probe> {
+    let peers = [gen::peer(0), gen::peer(1)];
+    let mut w: World<Probe> = World::new(&peers, |i, log| Probe::new(i as u8, 0, log, ProbeScript::default()), |c| c.with_idle_connection_timeout(std::time::Duration::from_secs(3600)));
+    for i in 0..2 {
+        w.listen(i, addr(9000 + i as u64));
+    }
+    w.settle(50, &mut |_, _, _| {});
+    w
+}
+
+fn needs_world(plan: &[Seg]) -> bool {
+    plan.iter().any(|s| !matches!(s, Seg::Opts { .. }))
+}
+
+struct Tally {
+    total: usize,
+    threads: usize,
+    by_opts: usize,
+    by_dial: usize,
+    by_inbound: usize,
+    swarms: usize,
+}
+
+/// Run all plans on their own OS threads (start barrier), collect, and judge against the process record.
+fn run_threads(case: &Case, origin: &str) -> Result<Tally, Outcome> {
+    let t = case.threads.len();
+    let barrier = Arc::new(Barrier::new(t));
+    let mut outs: Vec<ThreadOut> = Vec::with_capacity(t);
+    let mut swarms = 0;
+    std::thread::scope(|s| {
+        let hs: Vec<_> = case
+            .threads
+            .iter()
+            .enumerate()
+            .map(|(ti, plan)| {
+                let b = barrier.clone();
+                s.spawn(move || {
+                    // the Swarms of this thread live (and are polled) on this thread only
+                    let mut world = if needs_world(plan) { Some(new_world()) } else { None };
+                    b.wait();
+                    let out = run_plan(plan, &mut world, ti);
+                    let had_world = world.is_some();
+                    drop(world);
+                    release_phantoms();
+                    (out, had_world)
+                })
+            })
+            .collect();
+        for h in hs {
+            match h.join() {
+                Ok((o, hw)) => {
+                    swarms += if hw { 2 } else { 0 };
+                    outs.push(o)
+                }
+                Err(_) => outs.push(ThreadOut { ids: vec![], by_opts: 0, by_dial: 0, by_inbound: 0, problem: Some("worker thread panicked".into()) }),
+            }
+        }
+    });
+    if let Some(p) = outs.iter().find_map(|o| o.problem.clone()) {
+        return Err(Outcome::Inconclusive(format!("harness: {p}")));
+    }
+    // (1) within this case, on the ids themselves (`Ord`/`Eq` of ConnectionId)
+    let mut all: Vec<ConnectionId> = outs.iter().flat_map(|o| o.ids.iter().copied()).collect();
+    all.sort();
+    if let Some(w) = all.windows(2).find(|w| w[0] == w[1]) {
+        let id = cid(w[0]);
+        let holders: Vec<usize> = outs.iter().enumerate().filter(|(_, o)| o.ids.contains(&w[0])).map(|(i, _)| i).collect();
+        // also taint the process record so that the verdict is stable under re-execution
+        let nums: Vec<u64> = all.iter().map(|c| cid(*c)).collect();
+        record(&nums, origin);
+        return Err(Outcome::fail("C03:duplicate-connection-id", json!({"id": id, "threads_holding_it": holders, "scope": "within one case", "ids_in_case": all.len()})));
+    }
+    // (2) against everything this process has ever seen
+    let nums: Vec<u64> = all.iter().map(|c| cid(*c)).collect();
+    if let Some((id, first_origin)) = record(&nums, origin) {
+        return Err(Outcome::fail(
+            "C03:duplicate-connection-id",
+            json!({"id": id, "scope": "process lifetime", "second_occurrence_from": first_origin, "ids_recorded_in_process": seen().lock().unwrap().total,
+                   "note": "the record is process-global: after the first duplicate every case reports the same witness"}),
+        ));
+    }
+    Ok(Tally {
+        total: all.len(),
+        threads: t,
+        by_opts: outs.iter().map(|o| o.by_opts).sum(),
+        by_dial: outs.iter().map(|o| o.by_dial).sum(),
+        by_inbound: outs.iter().map(|o| o.by_inbound).sum(),
+        swarms,
+    })
+}
+
+fn check_stress(case: &Case) -> Outcome {
+    if case.threads.is_empty() {
+        return Outcome::Discard;
+    }
+    match run_threads(case, "stress") {
+        Err(o) => o,
+        Ok(t) => {
+            let mut labels = vec![];
+            if t.threads >= 2 {
+                labels.push("threads>=2");
+            }
+            if t.threads >= 8 {
+                labels.push("threads>=8");
+            }
+            if t.total >= 1000 {
+                labels.push("ids>=1000");
+            }
+            if t.total >= 20_000 {
+                labels.push("ids>=20000");
+            }
+            if t.by_dial > 0 {
+                labels.push("swarm_dial");
+            }
+            if t.by_inbound > 0 {
+                labels.push("inbound");
+            }
+            if t.swarms >= 4 {
+                labels.push("swarms_on>=2_threads");
+            }
+            if t.by_opts > 0 {
+                labels.push("dial_opts");
+            }
+            Outcome::pass_l(t.threads >= 2 && t.total >= 1000, labels)
+        }
+    }
+}
+
+fn seg_strategy(max_opts: u16) -> impl Strategy<Value = Seg> {
+    prop_oneof![
+        10 => (0u8..5, 1u16..=max_opts).prop_map(|(route, n)| Seg::Opts { route, n }),
+        2 => (0u8..2, 1u8..24).prop_map(|(node, n)| Seg::Dial { node, n }),
+        2 => (0u8..2, 1u8..24).prop_map(|(node, n)| Seg::Inbound { node, n }),
+    ]
+}
+
+fn stress_strategy() -> BoxedStrategy<Case> {
+    // thread count: biased to "many" (contention) but covering 1..16
+    let t = prop_oneof![1 => 1usize..=16, 2 => 6usize..=16];
+    t.prop_flat_map(|t| proptest::collection::vec(proptest::collection::vec(seg_strategy(2500), 1..5), t)).prop_map(|threads| Case { threads }).boxed()
+}
+
+// ---------------------------------------------------------------------------------------------
+// boundary sub-check
+
+#[derive(Clone, Debug, Serialize, Deserialize, PartialEq, Eq)]
+pub struct Boundary {
+    /// the counter is moved to just below 2^exp (if it is not already beyond)
+    pub exp: u8,
+    /// ids allocated before the jump and across the boundary (each)
+    pub n: u16,
+}
+
+fn check_boundary(b: &Boundary) -> Outcome {
+    let n = b.n.max(64);
+    // (a) some ids from wherever the counter is now: all four routes, two threads, two swarms each
+    let mixed = |n: u16| Case {
+        threads: vec![
+            vec![Seg::Opts { route: 0, n }, Seg::Inbound { node: 0, n: 8 }, Seg::Dial { node: 1, n: 8 }, Seg::Opts { route: 2, n }],
+            vec![Seg::Inbound { node: 1, n: 8 }, Seg::Opts { route: 4, n }, Seg::Dial { node: 0, n: 8 }],
+        ],
+    };
+    if let Err(o) = run_threads(&mixed(n), "boundary:before-jump") {
+        return o;
+    }
+    // (b) jump: read the counter through the public API, skip to 2^exp - n (never backwards)
+    let here = cid(DialOpts::from(gen::peer(0)).connection_id());
+    if let Some((id, origin)) = record(&[here], "boundary:probe") {
+        return Outcome::fail("C03:duplicate-connection-id", json!({"id": id, "scope": "process lifetime", "second_occurrence_from": origin}));
+    }
+    let target = (1u64 << b.exp).saturating_sub(n as u64);
+    let jumped = here + 1 < target;
+    if jumped {
+        ConnectionId::verif_skip((target - here - 1) as usize);
+    }
+    // (c) allocate across the boundary
+    match run_threads(&mixed(n.saturating_mul(2)), "boundary:after-jump") {
+        Err(o) => o,
+        Ok(_) => Outcome::pass_l(jumped, if jumped { vec!["jumped"] } else { vec!["already_beyond"] }),
+    }
+}
+
+pub fn run(ctx: &mut Ctx) {
+    ctx.assume("ConnectionId's Display prints the whole id: the process-wide record is keyed by that number (within one case ids are compared with their own Eq/Ord)");
+    ctx.assume("randomized stress over the OS scheduler: the counter is a private static, so the harness cannot own the interleaving of allocations; a lost update is caught with high probability, not with certainty");
+    ctx.assume("hook ConnectionId::verif_skip(n) (cfg libp2p_verif) is equivalent to n allocations whose ids are discarded; boundaries above 2^56 are not visited (unreachable within a process lifetime)");
+    ctx.check::<Case>(
+        "stress",
+        "T in 1..16 OS threads released by a barrier, each running 1..4 segments: up to 2500 DialOpts per segment through 5 builder spellings, up to 23 real Swarm::dial calls, up to 23 inbound connections on one of the thread's two simulated swarms; every id is checked against a process-global record (all earlier cases, lanes and threads). non-trivial = >=2 threads and >=1000 ids in the case; distinct by case hash",
+        ctx.n(400, 8000),
+        &stress_strategy,
+        &check_stress,
+    );
+    // deterministic, sequential (lane 0 only): the record above already holds the small ids
+    let exps: &[u8] = &[8, 12, 16, 20, 24, 31, 32, 33, 40, 48, 53, 56];
+    ctx.sweep::<Boundary, _>(
+        "boundary",
+        "for 2^k in {8,12,16,20,24,31,32,33,40,48,53,56}: allocate through all routes, move the counter to just below 2^k (hook: n discarded allocations), allocate across the boundary on two threads and four swarms; ids must still be new to the process. non-trivial = the counter was actually moved",
+        true,
+        &|lane| {
+            let v: Vec<Boundary> = if lane == 0 { exps.iter().map(|&exp| Boundary { exp, n: 200 }).collect() } else { vec![] };
+            v.into_iter()
+        },
+        &check_boundary,
+    );
+    let g = seen().lock().unwrap();
+    ctx.extra("ids_recorded_in_process", json!(g.total));
+    ctx.extra("bitmap_pages", json!(g.pages.len()));
+}
